@@ -60,6 +60,13 @@ pub(crate) use substream::Substream;
 mod connection;
 mod substream;
 
+/// Verification hooks: the crate-private TCP connection type (for its cfg-gated
+/// `verif_negotiate_connection`). Adds code only.
+#[cfg(feature = "verif")]
+pub mod verif {
+    pub use super::connection::TcpConnection;
+}
+
 pub mod config;
 
 /// Logging target for the file.
